@@ -9,8 +9,8 @@ PID = "C12"
 LEVEL = "model_checking"
 RULE = (
     "incoming: every sequence up to the tier's depth over {define / redefine function svc in interactive context S with "
-    "one of 6 declaration variants (default name, explicit name, two decorators, two arguments, other name with optional "
-    "response, response only), the same in a second context T with single-name variants (colliding with S), a second "
+    "one of 7 declaration variants (default name, explicit name, two decorators, two arguments, other name with optional "
+    "response, response only, default name above a user decorator that returns a wrapper), the same in a second context T with single-name variants (colliding with S), a second "
     "function in S declaring a shared name, del of each function, edit+reload / delete+reload of a script file declaring "
     "a service, redefinition of that file's service function from inside a running service function, call every name of the universe with fresh data} and a final unload; after every completed step "
     "hass.services.has_service equals the declared-services model (owner context, live accepted declarations), a call "
@@ -18,13 +18,18 @@ RULE = (
     "response is supported, a foreign declaration changes nothing, and nothing remains after unload. outgoing: every "
     "call form (DOMAIN.service(...), service.call(...)) x every combination of context / blocking / return_response "
     "arguments with right and wrong types x recorder services with the three response modes: the recorder receives "
-    "exactly the remaining keyword parameters and the response comes back. distinct = distinct (step, registry, "
+    "exactly the remaining keyword parameters and the response comes back; entity-method form: every sequence over "
+    "{define / redefine a service with an entity_id and one other parameter under two parameter names, define an unrelated "
+    "service, delete} each followed by DOMAIN.entity.service(value) and DOMAIN.entity.service(param=value): the value reaches the "
+    "current definition under its own parameter name. distinct = distinct (step, registry, "
     "responses); non-trivial = a service ran"
 )
 ASSUMPTIONS = [
     "a declaration rejected because another context owns the name leaves the other names of the same function unspecified; "
     "context T therefore only uses single-name variants",
     "calls that Home Assistant itself rejects (return_response on a service without response support) are not generated",
+    "the entity-method form DOMAIN.entity.service(...) needs pyscript's cache of service parameters, which the legacy subsystem only refreshes at "
+    "start-up and at the beginning of a reload: toward services defined afterwards the form is not available there, so it is explored in the default subsystem only",
 ]
 MAXTASKS = 30
 
@@ -38,8 +43,11 @@ VARIANTS = {
     "V4": (["@service(\"test.s1\", \"test.s2\")"], [("test", "s1"), ("test", "s2")], "none"),
     "V5": (["@service(\"test.s3\", supports_response=\"optional\")"], [("test", "s3")], "optional"),
     "V6": (["@service(\"test.s4\", supports_response=\"only\")"], [("test", "s4")], "only"),
+    # the default name is the declared function's name also when a user decorator returns a wrapper
+    "V7": (["@service", "@logged"], [("pyscript", "svc")], "none"),
 }
-S_VARIANTS = ["V1", "V2", "V3", "V4", "V5", "V6"]
+S_VARIANTS = ["V1", "V2", "V3", "V4", "V5", "V6", "V7"]
+LOGGED = "def logged(fn):\n    def wrapper(**kw):\n        return fn(**kw)\n    return wrapper\n"
 T_VARIANTS = ["V1", "V5"]
 
 BODY = '''def {fname}(**kw):
@@ -132,6 +140,7 @@ def run_seq(legacy, seq, final_unload=True):
         ctxs = {"S": w.new_session("jupyter_0"), "T": w.new_session("jupyter_1")}
         for c in ctxs.values():
             w.g(c)["runs"] = runs
+            w.exec_in(LOGGED, c)
         m = Model()
         fgen = None
         xcount = 0
@@ -362,6 +371,64 @@ def run_outgoing(legacy, case):
         w.close()
 
 
+# ---- entity-method call form ---------------------------------------------------------------------
+ENT_OPS = ["DEFA", "DEFB", "DEFN", "DELF"]
+ENT_SRC = {
+    "DEFA": "@service('test.setlvl')\ndef setlvl(entity_id=None, brightness=None, **kw):\n    seen.append(('A', entity_id, ('brightness', brightness), sorted(k for k in kw if k not in ('trigger_type', 'context'))))\n",
+    "DEFB": "@service('test.setlvl')\ndef setlvl(entity_id=None, level=None, **kw):\n    seen.append(('B', entity_id, ('level', level), sorted(k for k in kw if k not in ('trigger_type', 'context'))))\n",
+    "DEFN": "@service('test.unrelated')\ndef unrelated(x=None):\n    pass\n",
+    "DELF": "del setlvl\n",
+}
+
+
+def run_entity(legacy, seq):
+    """test.lamp.setlvl(4) / test.lamp.setlvl(<param>=5): the value reaches the CURRENT definition under its own parameter name."""
+    from mc.world import World
+
+    w = World({}, legacy=legacy)
+    try:
+        ctx = w.new_session("jupyter_0")
+        seen = []
+        w.g(ctx)["seen"] = seen
+        w.hass.states.async_set("test.lamp", "on")
+        w.settle()
+        cur = None
+        trace = []
+        for i, op in enumerate(seq):
+            if op == "DELF" and cur is None:
+                continue
+            # list comprehension instead of a generator expression in the recorded source
+            box = w.exec_in(ENT_SRC[op].replace("sorted(k for k in kw if k not in ('trigger_type', 'context'))",
+                                                "sorted([k for k in kw if k not in ('trigger_type', 'context')])"), ctx)
+            w.settle()
+            w.collect()
+            if "exc" in box:
+                return {"kind": "entity-define-raised", "step": i, "op": op, "detail": repr(box["exc"])[:200]}, trace
+            if op in ("DEFA", "DEFB"):
+                cur = op[-1]
+            elif op == "DELF":
+                cur = None
+            if cur is None:
+                continue
+            param = "brightness" if cur == "A" else "level"
+            for form, call, val in (("positional", "test.lamp.setlvl(4)", 4), ("keyword", f"test.lamp.setlvl({param}=5)", 5)):
+                n0 = len(seen)
+                box = w.exec_in(call + "\n", ctx)
+                w.settle()
+                got = list(seen[n0:])
+                exp = [(cur, "test.lamp", (param, val), [])]
+                trace.append((op, form, got))
+                if "exc" in box:
+                    return {"kind": "entity-call-raised", "step": i, "op": op, "form": form, "expected": exp, "observed": repr(box["exc"])[:200]}, trace
+                if got != exp:
+                    return {"kind": "entity-call-data", "step": i, "op": op, "form": form, "expected": exp, "observed": got}, trace
+        if w.errors:
+            return {"kind": "loop-exception", "detail": repr(w.errors[0])[:300]}, trace
+        return None, trace
+    finally:
+        w.close()
+
+
 # ---- plan ------------------------------------------------------------------------------------
 def bounds(tier):
     return {"depth": 4 if tier == "thorough" else 3, "ops": len(ops(tier)), "outgoing_cases": len(list(outgoing_cases()))}
@@ -372,6 +439,7 @@ def plan(tier, seed):
     n = 48 if tier == "thorough" else 8
     shards = [("in", legacy, depth, k, n) for legacy in (False, True) for k in range(n)]
     shards += [("out", legacy, k, 4) for legacy in (False, True) for k in range(4)]
+    shards += [("ent", False, depth, k, 4) for k in range(4)]  # default subsystem only, see ASSUMPTIONS
     return shards
 
 
@@ -394,6 +462,16 @@ def run_shard(shard):
                     feat = "*"
                 res.fail(f"in|{'legacy' if legacy else 'new'}|{fail['kind']}|{feat}", case, expected=fail.get("expected"),
                          observed=fail.get("observed"), detail=fail)
+    elif shard[0] == "ent":
+        _, legacy, depth, k, n = shard
+        for i, seq in enumerate(EX.sequences(ENT_OPS, depth)):
+            if i % n != k:
+                continue
+            fail, trace = run_entity(legacy, seq)
+            c = {"engine": "ent", "legacy": legacy, "seq": list(seq)}
+            res.case(("ent", tuple(seq), repr(trace)), nontrivial=bool(trace), transitions=len(seq), config="ent/" + ("legacy" if legacy else "new"), sample=c)
+            if fail:
+                res.fail(f"ent|{'legacy' if legacy else 'new'}|{fail['kind']}|{fail.get('form')}", c, expected=fail.get("expected"), observed=fail.get("observed"), detail=fail)
     else:
         _, legacy, k, n = shard
         for i, case in enumerate(outgoing_cases()):
@@ -410,6 +488,9 @@ def run_shard(shard):
 def replay(case):
     if case["engine"] == "in":
         fail, trace, m = run_seq(case["legacy"], [tuple(o) for o in case["seq"]])
+        return {"ok": fail is None, "failure": fail, "trace": trace}
+    if case["engine"] == "ent":
+        fail, trace = run_entity(case["legacy"], tuple(case["seq"]))
         return {"ok": fail is None, "failure": fail, "trace": trace}
     fail, obs = run_outgoing(case["legacy"], tuple(case["case"]))
     return {"ok": fail is None, "failure": fail, "observed": obs}
